@@ -94,6 +94,19 @@ CLAIMED = {
              'under contract.',
         technique='contract-based deductive verification (pyvc + z3): representation invariant, try/except/finally '
                   'path enumeration', design_ref='DESIGN.md 7 C19'),
+    'C15': dict(
+        text='One contract per request function of every built-in middleware (gzip, HTTP cache, stats, profiler without '
+             'trigger, signed cookie, GET/POST parameter extractors, script root), verified for both kinds of next() '
+             'results (Werkzeug Response; HTTPException as returned by the catch-all route) with attribute tables '
+             'reflected from the installed classes: the function returns exactly the object next() returned, lets any '
+             'exception through unchanged, never writes status; gzip additionally: an encoded body gunzips to the '
+             'original data, Content-Length is the length sent, Vary gets Accept-Encoding, nothing is encoded when the '
+             'client does not accept gzip.',
+        note='Gzip round trip, Werkzeug descriptors (vary, cache_control, add_etag, make_conditional without conditional '
+             'headers) and SecureCookie.save_cookie are assumed contracts; ContextProcessor (nested closure) is covered '
+             'by the native replay harness only.',
+        technique='contract-based deductive verification (pyvc + z3): attribute-safety and pass-through obligations '
+                  'against reflected class tables', design_ref='DESIGN.md 7 C15'),
 }
 
 REASONS = {}
